@@ -47,8 +47,9 @@ func (c17) Gen(r *rand.Rand, tier string, run int) *core.Case {
 			case k < 3:
 				// 0 keep, 1 one-shot, 2 never-match, 3 one-shot with an unbuffered queue and a
 				// lazy reader, 4 keep with an unbuffered queue and a lazy reader (so that
-				// dispatch meets a full queue and answers calls with an error)
-				op = core.Op{Kind: "make", X: int64(r.IntN(5)), Y: int64(r.IntN(6))}
+				// dispatch meets a full queue and answers calls with an error), 5 keep with
+				// an unbuffered queue whose reader takes nothing before the close callback ran
+				op = core.Op{Kind: "make", X: int64(r.IntN(6)), Y: int64(r.IntN(6))}
 			case k < 6:
 				op = core.Op{Kind: "remove", X: int64(r.IntN(4)), Y: int64(r.IntN(14))} // X: 0,1 own live; 2 stale/any known; 3 random id Y
 			default:
@@ -236,9 +237,12 @@ func c17make(env *core.Env, st *c17state, a, kind, lazy int) *c17h {
 	rec.idx = len(st.hs)
 	st.hs = append(st.hs, rec)
 	st.mu.Unlock()
+	// kind 5: a consumer that is busy elsewhere for as long as the handler is
+	// registered (it takes nothing before the close callback has run)
+	released := make(chan struct{})
 	filter := func(hdr *net.Header) (bool, bool) {
 		switch kind {
-		case 0, 4:
+		case 0, 4, 5:
 			return hdr.Action%2 == 0, true
 		case 1, 3:
 			if hdr.Action%3 == 0 {
@@ -259,10 +263,16 @@ func c17make(env *core.Env, st *c17state, a, kind, lazy int) *c17h {
 		seq := zzsim.Seq()
 		st.mu.Lock()
 		rec.closerSeqs = append(rec.closerSeqs, seq)
+		first := len(rec.closerSeqs) == 1
 		st.mu.Unlock()
+		if first {
+			close(released)
+		}
 	}
 	go func() {
-		if kind >= 3 {
+		if kind == 5 {
+			<-released
+		} else if kind >= 3 {
 			// a reader that is late: the queue looks full to dispatch
 			for j := 0; j < 2+3*lazy; j++ {
 				zzsim.Yield("h.lazy-reader")
